@@ -63,6 +63,13 @@ def cases(tier, seed):
             picks.append(("1", "1.0000000000000000000001"))
             picks.append(("-2.00000000000000000000004", "-2"))
             picks.append(("1", "1.00000000000000000002"))
+            # values that agree in their first 16-19 significant digits and differ far above the tolerance (they are the same
+            # double): different values must not compare equal
+            picks.append(("1.00000000000000001", "1"))
+            picks.append(("123.456789012345679", "123.456789012345678"))
+            picks.append(("-7.0000000000000000001", "-7"))
+            if pa is pb:
+                picks.append(("999999999999999999.5", "999999999999999999.25"))
             picks.append(("-0", "0"))
             picks.append(("0", "-0.0"))
             picks.append(("-0E+2", "1E-30"))
